@@ -11,7 +11,7 @@ pub open spec fn fit_s(v: int) -> Option<S> { if imin() <= v <= imax() { Some(S(
 pub open spec fn sign(x: int) -> int { if x < 0 { -1 } else { 1 } }
 /// fixed-point integer power: pow_fixed(b,0)=UNIT, pow_fixed(b,k+1)=floor(pow_fixed(b,k)*b/UNIT)
 pub open spec fn pow_fixed(b: int, k: nat) -> int decreases k {
-    if k == 0 { unit() } else { (pow_fixed(b, (k - 1) as nat) * b) / unit() }
+    if k == 0 { uunit() } else { (pow_fixed(b, (k - 1) as nat) * b) / uunit() }
 }
 /// `pow_fixed(b, j)` fits the unsigned type for every j <= k (the loop of checked_pow_fixed
 /// fails at the first intermediate that does not fit).
